@@ -59,6 +59,8 @@ func (p *Prog) verifyFunc(t target, findings []*Finding) (fr *FuncResult) {
 	}
 	st.A = c.fresh("Int", "A0")
 	c.assume("true", fmt.Sprintf("(< 2000000 %s)", st.A))
+	// the entry heap is closed: references stored in objects that exist at entry point to objects that exist at entry
+	c.lines = append(c.lines, fmt.Sprintf("(assert (forall ((o Int) (x Int)) (! (=> (< o %s) (< (select (select %s o) x) %s)) :pattern ((select (select %s o) x)))))", st.A, st.heaps["ref"], st.A, st.heaps["ref"]))
 	e := &Exec{p: p, c: c, fn: fn, spec: sp, name: fr.Name, counters: map[string]int{}, trusted: map[string]bool{}, inlined: map[string]bool{},
 		bounded: map[string]bool{}, closures: map[string]*closureVal{}}
 	e.root = e
@@ -88,6 +90,7 @@ func (p *Prog) verifyFunc(t target, findings []*Finding) (fr *FuncResult) {
 	// requires + frame are evaluated in the entry state
 	if sp != nil {
 		env := e.envAt(st, false)
+		env.hyp = true
 		for _, rq := range sp.Requires {
 			c.assume("true", env.evalBool(rq.Expr))
 		}
@@ -142,6 +145,7 @@ func (p *Prog) verifyFunc(t target, findings []*Finding) (fr *FuncResult) {
 					o.at = len(c.lines)
 					o.goal = fmt.Sprintf("(=> %s %s)", r.st.pc, goal)
 					o.ctx = c
+					c.skolemize(o, r.st.pc, goal)
 					c.obls = append(c.obls, o)
 				}
 			}
